@@ -18,22 +18,24 @@ centiseconds), `fired id t b cs` (handler action ran at real time `t`), `destroy
 
 * `at_most_once`, `not_after_destroy`, `fired_was_born` hold for every schedule and both variants.
 * `negative_delay_rejected`: a constructor called with `csecs <= 0` changes nothing.
-* `never_early`, `prompt`, `deadline_order` are FALSE for `Time::operator==` as it was written before
-  the repair (`eqBug = true`; the `_fails` theorems document what the check reports should the typo
-  come back) and, for the repaired code, once a timer expiry may land inside a critical section:
-  see `…_fails_deferred_signal` (concrete schedules, replayed on the real library by
-  `checks/c19.py`; open known finding KF-C19-2).  The `_partial` versions are proved for the code as
-  it is (`eqBug = false`):
-  `never_early_partial` for every statement-level schedule in which no timer expiry lands inside a
-  critical section (`NoDeferral`) — the exact side condition: the excluded runs are those of
-  `never_early_fails_deferred_signal`;
-  `exact_partial` / `prompt_partial` / `deadline_order_partial` under `Quiet`: no time passes inside a
-  critical section (signals are delivered between public operations and at the critical-section
-  boundaries, including between the destructor's test of `expired` and its critical section);
-  the `_atomic` versions need no hypothesis at all.  What is missing for full strength there: a
-  quantitative version ("late by at most the time spent inside critical sections") for runs where
-  time passes inside critical sections without an expiry; the harness judges exactly that bound on
-  the real traces.
+* `never_early` and `no_internal_error` hold for EVERY schedule of the statement-level system
+  (`eqBug = false`, the code as it is): time may pass — and the timer expire — between any two
+  statement groups, inside or outside the critical sections; an expiry inside a critical section
+  only sets `timeout_deferred` and is handled by `leave_critical_section`.
+* `exact_partial` / `prompt_partial` / `deadline_order_partial` are proved under `Quiet`: no time
+  passes inside a critical section (signals are delivered between public operations and at the
+  critical-section boundaries, including between the destructor's test of `expired` and its
+  critical section); the `_atomic` versions need no hypothesis at all.  They CANNOT hold for all
+  schedules: the bookkeeping reconstructs elapsed time from `getitimer`, so time that passes
+  between `get_timer` and the re-arming `setitimer`, or after an expiry that had to be deferred,
+  is lost by design — every pending watchdog is late by that amount (see the example after
+  `never_early`: late by 16 µs) and two deadlines closer than it may be served in the other order.
+  What is missing is the quantitative version ("late by at most the time spent inside critical
+  sections"); the harness judges exactly that bound on the real traces.
+* The `_fails` theorems about `eqBug = true` document what the check reports should the typo of
+  `Time::operator==` (repaired by 26a6e2f) come back; the `_before_fix_fails` theorems
+  (`runBeforeFix`: the handler calling `reschedule()` inside a critical section, repaired by
+  9ac8059, KF-C19-2) are the concrete schedules on which the old code fired early / late.
 -/
 namespace C19
 open PPLV.Watchdog
@@ -89,33 +91,32 @@ theorem never_early_fails_removal : ¬ ∀ sched, NeverEarly (run true sched).lo
   have := neverEarlyB_of (h (atomicSched [.create 0 10, .create 1 50, .tick 50000, .destroy 0, .tick 100000]))
   revert this; decide
 
-/-- the schedule on which the repaired code fires early: the timer expires between `get_timer`
-    and the read of `last_time_requested` inside `~Watchdog()`; `reschedule()` overwrites
-    `last_time_requested`, the reconstructed clock runs ahead -/
+/-- the timer expires between `get_timer` and the read of `last_time_requested` inside
+    `~Watchdog()` -/
 def deferredEarly : List Step :=
   atomicSched [.create 0 100, .tick 4000, .create 1 200, .tick 3000, .create 2 99, .tick 2000,
                .create 3 200, .tick 988000, .tick 1000] ++
-  [.destroy 0, .step, .step, .tick 2000, .step, .step, .step, .tick 1006000]
+  [.destroy 0, .step, .step, .tick 2000, .step, .step, .step, .step, .step, .step, .tick 1006000, .tick 10000]
 
-/-- with the repaired `==` too, a signal deferred inside a critical section makes a later
-    watchdog fire early (watchdog 3, due at 2.009000 s, fires at 2.006000 s) -/
-theorem never_early_fails_deferred_signal : ¬ ∀ sched, NeverEarly (run false sched).log := by
+/-- KF-C19-2, before commit 9ac8059: the handler, inside the critical section, called
+    `reschedule()`, which overwrote `last_time_requested`; the reconstructed clock ran ahead and
+    watchdog 3, due at 2.009000 s, fired at 2.006000 s -/
+theorem never_early_before_fix_fails : ¬ ∀ sched, NeverEarly (runBeforeFix false sched).log := by
   intro h
   have := neverEarlyB_of (h deferredEarly)
   revert this; decide
 
-/-- no signal has been deferred: no timer expiry landed inside a critical section -/
-def NoDeferral (σ : St) : Prop := ∀ t, Event.deferred t ∉ σ.log
+/-- never before `delay` has elapsed since the constructor was entered: EVERY schedule of the
+    statement-level system — time passing, and the timer expiring, between any two statement
+    groups, inside or outside the critical sections -/
+theorem never_early (sched : List Step) : NeverEarly (run false sched).log :=
+  (ninv_run sched).base.fired
 
-/-- never before `delay` has elapsed since the constructor was entered: ANY schedule of the
-    statement-level system — time may pass between any two statements, also inside the critical
-    sections — in which no timer expiry lands inside a critical section.  (The excluded class is
-    exactly that of `never_early_fails_deferred_signal`.) -/
-theorem never_early_partial (sched : List Step) (hnd : NoDeferral (run false sched)) :
-    NeverEarly (run false sched).log := by
-  rcases ninv_run sched with ⟨t, ht⟩ | hl
-  · exact absurd ht (hnd t)
-  · exact hl.base.fired
+/-- non-vacuity: on the schedule of `never_early_before_fix_fails` a signal is deferred and the
+    watchdogs fire, none early (watchdog 3, due at 2.009 s, at 2.011 s) -/
+example : Event.deferred 1000000 ∈ (run false deferredEarly).log ∧
+    Event.fired 3 2011000 9000 200 ∈ (run false deferredEarly).log ∧
+    Event.fired 1 2006000 4000 200 ∈ (run false deferredEarly).log := by decide +kernel
 
 /-- non-vacuity: time passes inside the constructor's critical section (between `get_timer` and the
     re-arming `setitimer`), no signal is deferred, the watchdogs fire — late by the time that passed
@@ -128,13 +129,10 @@ example :
     Event.fired 1 100016 0 10 ∈ (run false s).log ∧ Event.fired 0 500016 0 50 ∈ (run false s).log := by
   decide
 
-/-- under the same conditions `set_timer` is never called with a null interval ("PPL internal
-    error") and no timer call fails -/
-theorem no_internal_error_partial (sched : List Step) (hnd : NoDeferral (run false sched)) :
-    (run false sched).err = false := by
-  rcases ninv_run sched with ⟨t, ht⟩ | hl
-  · exact absurd ht (hnd t)
-  · exact hl.base.noErr
+/-- `set_timer` is never called with a null interval ("PPL internal error") and no timer call
+    fails, on any schedule -/
+theorem no_internal_error (sched : List Step) : (run false sched).err = false :=
+  (ninv_run sched).base.noErr
 
 /-- in quiet runs the action runs EXACTLY at birth + delay (never early and prompt at once) -/
 theorem exact_partial (sched : List Step) (hq : Quiet (run false sched)) (id : Nat) (t b cs : Int)
@@ -149,17 +147,24 @@ example : Quiet (run false (atomicSched [.create 0 10, .create 1 50, .tick 50000
 
 /-! ## prompt -/
 
-/-- a signal deferred inside a critical section loses a whole timer interval: watchdog 1, due at
-    1.5 s and alive, has not fired at 1.61 s (it fires at 2.5 s) -/
+/-- the timer expires at the entry of a constructor's critical section -/
 def deferredLate : List Step :=
   atomicSched [.create 0 100, .tick 500000, .create 1 100] ++
-  [.create 2 300, .tick 500000, .step, .step, .step, .step, .tick 10000, .tick 600000]
+  [.create 2 300, .tick 500000, .step, .step, .step, .step, .step, .step, .step, .tick 10000, .tick 600000]
 
-theorem prompt_fails_deferred_signal :
-    ¬ ∀ sched, (run false sched).inCrit = false → Prompt (run false sched) := by
+/-- KF-C19-2, before commit 9ac8059: the deferred signal lost a whole timer interval: watchdog 1,
+    due at 1.5 s and alive, had not fired at 1.61 s (it fired at 2.5 s) -/
+theorem prompt_before_fix_fails :
+    ¬ ∀ sched, (runBeforeFix false sched).inCrit = false → Prompt (runBeforeFix false sched) := by
   intro h
   have := promptB_of (h deferredLate (by decide))
   revert this; decide
+
+/-- on the same schedule the code as it is serves both watchdogs exactly on time (the deferred
+    timeout is handled on leaving the critical section, in which no further time passes) -/
+example : Event.deferred 1000000 ∈ (run false deferredLate).log ∧
+    Event.fired 0 1000000 0 100 ∈ (run false deferredLate).log ∧
+    Event.fired 1 1500000 500000 100 ∈ (run false deferredLate).log := by decide +kernel
 
 /-- the constructors reject a non-positive delay (`invalid_argument`) before anything is changed:
     the bookkeeping state is untouched, only the ghost log records the rejection (defect 17 of the
